@@ -346,3 +346,13 @@ def prepare_lean(ctx: Ctx):
     ctx.audit_info = audit(ctx.prop)
     if ctx.audit_info["bad"]:
         raise Infra(f"axiom audit failed: {ctx.audit_info['bad']}\n{ctx.audit_info['raw'][-3000:]}")
+    if ctx.tier == "thorough":
+        # independent re-check of the compiled theorem modules of this property by Lean's external kernel checker
+        mods = [f"NdonnxVerif.Props.{p.stem}" for p in prop_files(ctx.prop)]
+        try:
+            p = subprocess.run(["lake", "env", "leanchecker"] + mods, cwd=LEAN, capture_output=True, text=True, timeout=1500)
+        except subprocess.TimeoutExpired as e:
+            raise Infra(f"leanchecker timed out: {e}")
+        if p.returncode != 0:
+            raise Infra(f"leanchecker rejected {mods}: {(p.stdout + p.stderr)[-2000:]}")
+        ctx.extra["leanchecker"] = {"modules": mods, "result": "accepted"}
